@@ -119,6 +119,7 @@ def check_hist(ctx, depth, first):
         else:
             ctx.discharged += 1
     ctx.expect(paths, ret=1)
+    ctx.validate_paths(paths, 12)
 
 
 def check_after_destroy(ctx):
@@ -179,7 +180,7 @@ def jobs(tier, seed):
     out = []
     for f in range(NOPS):
         out.append(Job("C13_hist_%d" % f, src, [dict(name="noop histories depth %d first op %d" % (depth, f), fn=check_hist, kw=dict(depth=depth, first=f), unwind=400)],
-                       native=False, max_paths=400000))
+                       max_paths=400000))
     out.append(Job("C13_after_destroy", src, [dict(name="owner operations after destroy_sandbox", fn=check_after_destroy, unwind=400)], native=False))
     if tier == "thorough":
         dsrc = DYLIB + '#include "C13_hist.inc"\n'
